@@ -328,7 +328,7 @@ def main(tier, seed):
     findings.replay_all(res, PID, {"C06-ignore-conflicts-winner": finding_ignore_conflicts,
                                    "C06-equal-not-identical": finding_equal_not_identical})
     rng = random.Random(seed * 131 + 6)
-    ncls, per = (90, 8) if tier == "quick" else (600, 10)
+    ncls, per = (90, 8) if tier == "quick" else (400, 10)
     cases = gen_cases(rng, ncls, per)
     # model against implementation, once per strategy
     mcases = []
